@@ -23,7 +23,7 @@ from .. import programs
 ID = 'C19'
 LEVEL = 'exploration'
 TECHNIQUE = 'bounded exhaustive enumeration of models x span types x flag lattice, column-wise comparison; round trip of every enumerated symbol list'
-RULE = ('4 model scripts x {unsolved, solved} x extra variables (int, bool, str, float, _internal) x 12 span types x 8 flag combinations for model_to_dataframe/'
+RULE = ('4 model scripts x {unsolved, solved} x extra variables (int, bool, str, float, _internal) x 17 span types (pandas spans carry a name) x 8 flag combinations for model_to_dataframe/'
         'to_dataframe, from_dataframe of each data table; linkers with 0..2 submodels x 8 flag combinations; VectorContainer.to_dataframe; '
         'symbols_to_dataframe/dataframe_to_symbols over every script of the program catalogue (all strata). '
         'non-trivial = export with at least one data column / symbol list with at least one symbol')
